@@ -138,7 +138,10 @@ class ProvXMLSerializer(Serializer):
                     elem, _ns(attr.namespace.uri, attr.localpart)
                 )
                 if isinstance(value, prov.model.Literal):
-                    if value.datatype not in [None, PROV["InternationalizedString"]]:
+                    if value.datatype is not None and not (
+                        value.datatype == PROV["InternationalizedString"]
+                        and value.langtag is not None
+                    ):
                         # prefix:local, or the bare local name for a datatype in
                         # the default namespace
                         subelem.attrib[_ns_xsi("type")] = str(value.datatype)
